@@ -59,7 +59,7 @@ def gen_window(rng, n):
     r = rng.random()
     if r < 0.04:
         g = -rng.randint(1, 4)             # negative window: hist[-gens] indexes from the front, may raise
-    elif r < 0.08 and g is not None:
+    elif r < 0.14 and g is not None:
         g = g + rng.choice([0.0, 0.5, 0.99])   # float window: int() truncates
     return g
 
